@@ -190,7 +190,8 @@ def _toy_pmax(opts, quick=31, thorough=59):
 # --------------------------------------------------------------------------------- (a) toy curves, group law
 @bounded("C02.toy_group_law", props=["C02"],
          bound="all prime-odd-order curves y^2=x^3+ax+b over F_p, p=3 mod 4, p<=59 (quick: p<=31): all ordered pairs "
-               "(P,Q) incl. infinity, P=Q, P=-Q for +,-; all P for unary minus (incl. infinity and Generator "
+               "(P,Q) incl. infinity, P=Q, P=-Q for + (and for binary - and the direct commutativity check when p<=31; 300 seeded pairs + "
+               "all pairs with infinity and P=Q beyond); all P for unary minus (incl. infinity and Generator "
                "instances: every base point for p<=11 (quick: p<=7), 2 (quick: 1) per curve beyond); all triples for N<=13, "
                "400 (quick: 100) seeded triples per curve beyond")
 def c02_toy_group_law(opts):
@@ -228,7 +229,9 @@ def c02_toy_group_law(opts):
                 key = "neg-infinity-typeerror" if i == 0 else "neg-raises"
             if not ok:
                 v(key, why, (cid, ref.points[i]), hdr + "print(-%s)" % pt_src(ref.points[i]))
-        # all ordered pairs: add, sub
+        # all ordered pairs: add; sub (= add of the negation, negation itself is checked for every point) on all ordered
+        # pairs for p<=31, on 300 seeded pairs + every pair involving infinity beyond
+        sub_pairs = None if p <= 31 else set([(rng.randrange(N), rng.randrange(N)) for _ in range(300)] + [(0, j) for j in range(N)] + [(j, 0) for j in range(N)] + [(j, j) for j in range(N)])
         for i, P in enumerate(objs):
             for j, Q in enumerate(objs):
                 nt = i != 0 and j != 0
@@ -242,6 +245,8 @@ def c02_toy_group_law(opts):
                 if not ok:
                     v("add-wrong", why, (cid, ref.points[i], ref.points[j]),
                       hdr + "print(%s + %s)" % (pt_src(ref.points[i]), pt_src(ref.points[j])))
+                if sub_pairs is not None and (i, j) not in sub_pairs:
+                    continue
                 t.case(key=(cid, "sub", i, j), nontrivial=nt)
                 try:
                     R = P - Q
@@ -264,6 +269,8 @@ def c02_toy_group_law(opts):
                 if tup(P + Pn) != INF:
                     v("inverse-wrong", "P+(-P) != infinity", (cid, ref.points[i]), hdr + "print(c.Point(%d,%d)+c.Point(%d,%d))" % (P[0], P[1], Pn[0], Pn[1]))
             for j in range(i):
+                if sub_pairs is not None and (i, j) not in sub_pairs and (j, i) not in sub_pairs:
+                    continue
                 Q = objs[j]
                 t.case(key=(cid, "comm", i, j), nontrivial=j != 0)
                 if tup(P + Q) != tup(Q + P):
@@ -355,8 +362,9 @@ def c02_toy_group_law(opts):
 # ------------------------------------------------------------------------ (a) toy curves, scalar multiplication
 @bounded("C02.toy_scalar_mul", props=["C02"],
          bound="same toy curves; k*P and P*k vs repeated addition for all k in [-2n,3n]: every point P (incl. infinity) "
-               "for p<=23 (quick: p<=11), 2 (quick: 1) seeded points + infinity per curve beyond; boundary k {0,+-1,+-n,n+-1,2n,3n,"
-               "+-(2^256+1), 10^30} for every P; order*P = infinity for every P; Curve objects with and without a stored "
+               "for p<=23 (quick: p<=11), 1 seeded point + infinity per curve beyond; boundary k {0,+-1,+-n,n+-1,2n,3n,"
+               "+-(2^256+1), 10^30} for every P (p>23 or quick: for every P on the order-carrying Curve, for the swept points on the "
+               "other two configurations); order*P = infinity for every P; Curve objects with and without a stored "
                "order (no order: k>=0 only), Generator.multiply; ECDH commutation d1*(d2*G)==d2*(d1*G)")
 def c02_toy_scalar_mul(opts):
     rng = random.Random(opts["seed"])
@@ -378,7 +386,7 @@ def c02_toy_scalar_mul(opts):
             idxs = list(range(N))
         else:
             all_full = False
-            idxs = [0] + rng.sample(range(1, N), 1 if quick else 2)
+            idxs = [0] + rng.sample(range(1, N), 1)
         big = [0, 1, -1, 2, N - 1, N, N + 1, -N, -N - 1, 1 - N, 2 * N, 3 * N, -2 * N, 2 ** 256 + 1, -(2 ** 256 + 1), 10 ** 30]
         bigset = set(big)
         for i in range(N):
@@ -395,7 +403,7 @@ def c02_toy_scalar_mul(opts):
                 for k in ks:
                     if k < 0 and not allow_neg:
                         continue
-                    if cname != "order" and i not in idxs and (quick or abs(k) > 3 * N):
+                    if cname != "order" and i not in idxs and (quick or p > 23 or abs(k) > 3 * N):
                         continue
                     if cname == "noorder" and k > 3 * N:
                         continue
@@ -460,8 +468,8 @@ def c02_toy_scalar_mul(opts):
 @bounded("C02.toy_generator_blinded", props=["C02"],
          bound="Generator.__mul__ (blinded fixed-base) == plain Point multiplication == repeated addition.  thorough: every "
                "curve p<=59; bases: every point for p<=7, one seeded base beyond; blinding {seeded non-zero, n-1} (+ {0, 1, "
-               "os.urandom default} on the first base for p<=11); k: all of [-2n,3n] for p<=31, one full period [0,n) plus "
-               "period edges {-2n,-n-1,-n,-1,n,n+1,2n,3n} for p>=43; always + {2^255,2^256-1,2^256,2^256+1,-2^256}.  quick: "
+               "os.urandom default} on the first base for p<=11; only the seeded one for p>=31); k: all of [-2n,3n] for p<=23, one full "
+               "period [0,n) plus period edges {-2n,-n-1,-n,-1,n,n+1,2n,3n} for p>=31; always + {2^255,2^256-1,2^256,2^256+1,-2^256}.  quick: "
                "all curves p<=11 with 1 seeded base x 2 blinds x all k in [-2n,3n], 40 seeded curves 19<=p<=31 with one "
                "period.  raw_mul(k) and k*G (rmul) on the edge scalars of every sweep")
 def c02_toy_generator_blinded(opts):
@@ -480,7 +488,7 @@ def c02_toy_generator_blinded(opts):
         N = ref.N
         cid = (p, a, b)
         cv = Curve(p, a, b, N)
-        full_range = p <= (11 if quick else 31)
+        full_range = p <= (11 if quick else 23)
         edges = [-2 * N, -N - 1, -N, -1, 0, 1, N - 1, N, N + 1, 2 * N, 3 * N] + HUGE
         if full_range:
             ks = list(range(-2 * N, 3 * N + 1)) + HUGE
@@ -494,7 +502,7 @@ def c02_toy_generator_blinded(opts):
             for _ in range(N - 1):
                 mults.append(ref.table[mults[-1]][gi])
             plainP = cv.Point(*base)
-            blinds = [rng.randrange(1, N), N - 1]
+            blinds = [rng.randrange(1, N), N - 1] if p <= 23 else [rng.randrange(1, N)]
             if bi == 0 and p <= 11 and not quick:
                 blinds += [0, 1, None]
             for bf in blinds:
@@ -591,11 +599,11 @@ def _named_curves():
                "parameters vs independent reference ladder; scalars {0,1,2,3,n-2,n-1,n,n+1,2n+-1,2^255,2^256-1,2^256,"
                "2^256+1, their negatives, seeded random in [1,n), negatives, > n} for G (blinded fixed-base, raw_mul, "
                "Curve.multiply) and for seeded points P; n*G = n*P = infinity; (k1+k2)G = k1G+k2G; -P, P-Q, -G, -infinity; "
-               "points_for_x on seeded x and x of known points.  Quick: 8 random scalars, 2 points; thorough: 150, 12")
+               "points_for_x on seeded x and x of known points.  Quick: 8 random scalars, 2 points; thorough: 100, 8")
 def c02_production_backends(opts):
     rng = random.Random(opts["seed"])
     quick = opts.get("tier") == "quick"
-    nrand, npts = (8, 2) if quick else (150, 12)
+    nrand, npts = (8, 2) if quick else (100, 8)
     t = Tally(rule="one case per (curve, operation, operands); nontrivial = scalar mod n not in {0,1}")
     v = V(t)
     from pycoin.ecdsa.native.openssl import OpenSSL
@@ -769,7 +777,7 @@ _LARGE = {
 def c02_large_user_curves(opts):
     rng = random.Random(opts["seed"])
     quick = opts.get("tier") == "quick"
-    nrand = 2 if quick else 25
+    nrand = 2 if quick else 14
     t = Tally(rule="one case per (curve, operation, scalar); nontrivial = scalar mod n not in {0,1}")
     v = V(t)
     from pycoin.ecdsa.native.openssl import OpenSSL, create_OpenSSLOptimizations
